@@ -2,7 +2,7 @@ use super::{super::utils::quote_name, Node, Reference};
 use crate::constants::{LAST_COLUMN, LAST_ROW};
 use crate::expressions::parser::move_formula::to_string_array_node;
 use crate::expressions::parser::static_analysis::remove_redundant_implicit_intersection;
-use crate::expressions::token::{OpSum, OpUnary};
+use crate::expressions::token::{Error, OpSum, OpUnary};
 use crate::functions::Function;
 use crate::language::{get_language, Language};
 use crate::locale::{get_locale, Locale};
@@ -413,6 +413,16 @@ pub(crate) fn stringify_reference(
     }
 }
 
+/// A reference displaced off the grid (or onto deleted cells) is printed as the
+/// `#REF!` error: spell it the way the parser of `language` reads it back.
+fn localize_ref_error(s: String, language: &Language) -> String {
+    if s == "#REF!" {
+        Error::REF.to_localized_error_string(language)
+    } else {
+        s
+    }
+}
+
 fn format_function(
     name: &str,
     args: &Vec<Node>,
@@ -565,19 +575,22 @@ fn stringify(
             row,
             absolute_row,
             absolute_column,
-        } => stringify_reference(
-            context,
-            &DisplaceData::None,
-            &Reference {
-                sheet_name,
-                sheet_index: 0,
-                row: *row,
-                column: *column,
-                absolute_row: *absolute_row,
-                absolute_column: *absolute_column,
-            },
-            false,
-            false,
+        } => localize_ref_error(
+            stringify_reference(
+                context,
+                &DisplaceData::None,
+                &Reference {
+                    sheet_name,
+                    sheet_index: 0,
+                    row: *row,
+                    column: *column,
+                    absolute_row: *absolute_row,
+                    absolute_column: *absolute_column,
+                },
+                false,
+                false,
+            ),
+            language,
         ),
         ReferenceKind {
             sheet_name,
@@ -586,19 +599,22 @@ fn stringify(
             row,
             absolute_row,
             absolute_column,
-        } => stringify_reference(
-            context,
-            displace_data,
-            &Reference {
-                sheet_name,
-                sheet_index: *sheet_index,
-                row: *row,
-                column: *column,
-                absolute_row: *absolute_row,
-                absolute_column: *absolute_column,
-            },
-            false,
-            false,
+        } => localize_ref_error(
+            stringify_reference(
+                context,
+                displace_data,
+                &Reference {
+                    sheet_name,
+                    sheet_index: *sheet_index,
+                    row: *row,
+                    column: *column,
+                    absolute_row: *absolute_row,
+                    absolute_column: *absolute_column,
+                },
+                false,
+                false,
+            ),
+            language,
         ),
         RangeKind {
             sheet_name,
@@ -649,6 +665,8 @@ fn stringify(
                 full_row,
                 full_column,
             );
+            let s1 = localize_ref_error(s1, language);
+            let s2 = localize_ref_error(s2, language);
             format!("{s1}:{s2}")
         }
         WrongRangeKind {
@@ -699,6 +717,8 @@ fn stringify(
                 full_row,
                 full_column,
             );
+            let s1 = localize_ref_error(s1, language);
+            let s2 = localize_ref_error(s2, language);
             format!("{s1}:{s2}")
         }
         OpRangeKind { left, right } => format!(
